@@ -123,7 +123,7 @@ class C18(Prop):
     assumptions = ("SimTLSSocket follows OpenSSL's contract: one read decrypts at most one record; pending() = undelivered "
                    "remainder of the current record; readability of the descriptor reflects undecrypted bytes only",
                    "KQueueSelector does not exist on Linux and is not exercised")
-    examples = {"quick": 1500, "thorough": 30000}
+    examples = {"quick": 1500, "thorough": 80000}
 
     def strategy(self, tier):
         small = st.fixed_dictionaries({
